@@ -1,4 +1,5 @@
 import PyodaProofs.C05
+import PyodaProofs.C05Resolvers
 import PyodaProofs.C05StartOfDay
 import PyodaProofs.C04Spec
 import PyodaProofs.C04Zone
@@ -19,3 +20,8 @@ import PyodaProofs.C04Zone
 #print axioms Pyoda.C05.mapLocal_intervals_valid
 #print axioms Pyoda.C05.no_earlier_on_date
 #print axioms Pyoda.C05.startOfDay_spec
+#print axioms Pyoda.C05.single_first_last_spec
+#print axioms Pyoda.C05.first_last_are_results
+#print axioms Pyoda.C05.gap_transition_valid
+#print axioms Pyoda.C05.resolveLocal_spec
+#print axioms Pyoda.C05.strict_lenient_are_combinations
